@@ -667,10 +667,13 @@ pub fn main(args: &[String]) {
                                     let vj = json!({"property": "C16", "class": "residue", "signature": full,
                                         "detail": format!("{} key-dependent bytes of {} are non-zero after drop (first offsets {:?}; {} of them live, i.e. they influence encrypt/decrypt results) of {} key-dependent / {} live / {} total; key length {}",
                                             o.kdep_nonzero.len(), reg.types[o.dropped_ty].name, &o.kdep_nonzero[..o.kdep_nonzero.len().min(8)], o.live_nonzero.len(), o.kdep, o.live, reg.types[o.dropped_ty].size, c.key.len())});
-                                    let rj = json!({"format": "block-ciphers-sim-replay/1", "property": "C16", "engine": "c16", "seed": seed,
+                                    let mut rj = json!({"format": "block-ciphers-sim-replay/1", "property": "C16", "engine": "c16", "seed": seed,
                                         "case": case_json(&reg, &c), "violation": vj});
+                                    if !crate::engine::build_label().is_empty() {
+                                        rj["build"] = json!(crate::engine::build_label());
+                                    }
                                     let _ = std::fs::create_dir_all(&replay_dir);
-                                    let path = format!("{}/C16-{}-{}.json", replay_dir, seed, case_no);
+                                    let path = format!("{}/C16-{}{}-{}.json", replay_dir, if crate::engine::build_label().is_empty() { String::new() } else { format!("{}-", crate::engine::build_label()) }, seed, case_no);
                                     let _ = std::fs::write(&path, serde_json::to_string_pretty(&rj).unwrap());
                                     violations.push(json!({"replay": path, "violation": vj}));
                                 }
